@@ -235,7 +235,7 @@ fn hot_reloading_thread(
     select.recv(&cache_msg);
     select.recv(&events);
 
-    loop {
+    'outer: loop {
         // We don't use `select` method here as we always want to check
         // `cache_msg` channel first.
         let ready = select.ready();
@@ -259,7 +259,11 @@ fn hot_reloading_thread(
                 }
                 Ok(CacheMessage::Clear) => cache.clear_local_cache(),
                 Ok(CacheMessage::AddAsset(infos)) => cache.add_asset(infos),
-                Err(_) => break,
+                Err(channel::TryRecvError::Empty) => break,
+                // The cache was dropped, there is nothing left to reload. We
+                // have to stop here: a disconnected channel is always ready,
+                // so `select.ready()` would never block again.
+                Err(channel::TryRecvError::Disconnected) => break 'outer,
             }
         }
 
